@@ -184,7 +184,7 @@ def gen(tier, rng):
     # family stream: wrappers over real FITS WCS, direct oracle only
     for _ in range(60 if tier == "quick" else 600):
         nd = rng.choice([2, 3])
-        fam = rng.choice(["tan", "rot", "lin"] + (["tan_split"] if nd == 3 else []))
+        fam = rng.choice(["tan", "rot", "lin", "gwcs"] + (["tan_split"] if nd == 3 else []))
         if rng.random() < 0.5:
             e = {"k": "res", "w": None, "f": [_fr(Fr(rng.choice(FACTORS))) for _ in range(nd)],
                  "o": [_fr(Fr(rng.choice(OFFSETS))) for _ in range(nd)], "fscalar": False, "oscalar": False}
@@ -204,7 +204,7 @@ def _q(x):
 def build_impl(e, fam=None):
     from ndcube.wcs.wrappers import ResampledLowLevelWCS, ReorderedLowLevelWCS, CompoundLowLevelWCS
     if e is None:
-        return family_wcs(fam[0], fam[1]).low_level_wcs
+        return family_wcs(fam[0], fam[1], (60,) * fam[1]).low_level_wcs       # (the shape only matters to the lookup-table gWCS)
     if e["k"] == "lin":
         return make_probe(e["A"], e["b"], e["shape"], e["bounds"], e["tw"], e["tp"])
     if e["k"] == "res":
@@ -414,10 +414,12 @@ def _run_family(case, W, exc):
     if exc is not None:
         why.append(f"construction raised {exc}")
         return {"out": {"t": "err", "e": exc}, "oracle": {"ok": False, "why": why[0], "finding": None}}
-    inner = family_wcs(fam[0], fam[1]).low_level_wcs
+    inner = family_wcs(fam[0], fam[1], (60,) * fam[1]).low_level_wcs
     n = inner.pixel_n_dim
     rng = np.random.RandomState(case["rs"] % (2 ** 31))
     p = [rng.randint(0, 12, size=(2, 3)) / 4.0 for _ in range(n)]
+    if fam[0] == "gwcs":
+        p = [x + 2.0 for x in p]            # stay inside the lookup tables for every factor / offset generated
     got = W.pixel_to_world_values(*p)
     if e["k"] == "res":
         num = (lambda x: int(_q(x)) if (e.get("ints") and _q(x).denominator == 1) else float(_q(x)))
